@@ -1,7 +1,7 @@
 (* Props/C09.v — the property theorems for C09 (genomic arrays are exact, lossless views of dense
    per-base arrays).  Only statements, `exact <lemma>` and Print Assumptions live here. *)
 From Coq Require Import ZArith List Bool.
-From BNP Require Import Base.Prims Model.C09 Proofs.C09.
+From BNP Require Import Base.Prims Model.C09 Proofs.C09 Gen.C09 Bridge.C09.
 Import ListNotations.
 Open Scope Z_scope.
 
@@ -143,6 +143,85 @@ Theorem C09_sum_int_partial : forall r, wf_rle r = true -> (forall v, In v (snd 
   model_sum r = vsum (expand r).
 Proof. exact sum_int_partial. Qed.
 Print Assumptions C09_sum_int_partial.
+
+(* Source tie: the comparisons, branch tests, appended / inserted elements, slot and offset formulas regenerated
+   from /repo on this run (Gen/C09.v, written by translate/gen_c09.py from arithmetics/intervals.py from_bedgraph /
+   from_intervals / to_array, genomic_data/genomic_track.py to_dict / extract_chromsome / get_data and
+   genomic_data/global_offset.py) are the named formulas Model/C09.v is written with, and where the model spells
+   a test differently (match on a list instead of len(..) == 0, s <? e instead of e >? s, interleave2 / alternate
+   instead of strided slots) the two spellings agree for all inputs. *)
+Theorem C09_source_tie :
+  (* from_bedgraph *)
+  ((forall size, gen_bg_empty_events size = m_bg_empty_events size) /\ gen_bg_empty_values = m_bg_empty_values
+   /\ (forall a b, gen_bg_is_gap a b = m_bg_is_gap a b)
+   /\ (forall i, gen_bg_gap_pos i = m_bg_gap_pos i) /\ gen_bg_gap_value = m_bg_gap_value /\ gen_bg_gap_shape = m_bg_gap_shape
+   /\ (forall last_stop size, gen_bg_fits last_stop size = m_bg_fits last_stop size)
+   /\ (forall size last_stop, gen_bg_ends_at_size size last_stop = m_bg_ends_at_size size last_stop
+                             /\ gen_bg_tail_at size last_stop = m_bg_tail_at size last_stop
+                             /\ gen_bg_tail_before size last_stop = m_bg_tail_before size last_stop)
+   /\ gen_bg_tail_values_before = m_bg_tail_values_before /\ gen_bg_tail_shape = m_bg_tail_shape
+   /\ (forall e0, gen_bg_needs_prefix e0 = m_bg_needs_prefix e0)
+   /\ (gen_bg_prefix_pos = m_bg_prefix_pos /\ gen_bg_prefix_event = m_bg_prefix_event
+       /\ gen_bg_prefix_value = m_bg_prefix_value /\ gen_bg_prefix_shape = m_bg_prefix_shape))
+  (* from_intervals *)
+  /\ ((forall stop start, gen_iv_assert_nonempty stop start = m_iv_assert_nonempty stop start
+                          /\ m_iv_assert_nonempty stop start = (start <? stop))
+      /\ (forall next_start prev_stop, gen_iv_assert_ordered next_start prev_stop = m_iv_assert_ordered next_start prev_stop
+                                       /\ m_iv_assert_ordered next_start prev_stop = (prev_stop <=? next_start))
+      /\ (forall n s0, gen_iv_has_prefix n s0 = m_iv_has_prefix n s0 /\ gen_iv_drop_first n s0 = m_iv_drop_first n s0)
+      /\ (forall starts, m_iv_has_prefix (len starts) (hd 0 starts) = iv_has_prefix starts
+                         /\ m_iv_drop_first (len starts) (hd 0 starts) = negb (iv_has_prefix starts))
+      /\ (forall n e size, gen_iv_has_postfix n e size = m_iv_has_postfix n e size)
+      /\ (forall ends size, m_iv_has_postfix (len ends) (last ends 0) size = iv_has_postfix ends size)
+      /\ (forall size, gen_iv_prefix size = m_iv_prefix size /\ gen_iv_postfix size = m_iv_postfix size)
+      /\ (forall a b c d, gen_iv_n_events a b c d = m_iv_n_events a b c d)
+      /\ (forall p i, gen_iv_start_slot p i = m_iv_start_slot p i /\ gen_iv_end_slot p i = m_iv_end_slot p i)
+      /\ (forall starts ends size i, length starts = length ends -> 0 <= i < len starts ->
+            let '(events, has_prefix, _) := from_intervals_events starts ends size in
+            let p := if has_prefix then 1 else 0 in
+            nthZ events (m_iv_start_slot p i) = nthZ starts i /\ nthZ events (m_iv_end_slot p i) = nthZ ends i)
+      /\ gen_iv_edge_shape = m_iv_edge_shape
+      /\ (forall n, gen_iv_n_values n = 2 * m_iv_n_pairs n /\ gen_iv_keep n = m_iv_keep n)
+      /\ (forall i, gen_iv_default_slot i = m_iv_default_slot i /\ gen_iv_value_slot i = m_iv_value_slot i)
+      /\ (forall (n : nat) (d v : Z * Z) i, 0 <= i < Z.of_nat n ->
+            nth (Z.to_nat (m_iv_default_slot i)) (alternate n d v) (0, 0) = d
+            /\ nth (Z.to_nat (m_iv_value_slot i)) (alternate n d v) (0, 0) = v)
+      /\ (forall e size, gen_iv_array_trailing_default e size = m_iv_array_trailing_default e size)
+      /\ gen_iv_array_shape = m_iv_array_shape /\ gen_iv_drop_count = m_iv_drop_count /\ gen_iv_return_shape = m_iv_return_shape)
+  (* to_array *)
+  /\ ((forall a b, gen_ta_diff a b = m_xor a b) /\ gen_ta_shape = m_ta_shape)
+  (* genomic_track.py slice bounds *)
+  /\ ((forall offset size, gen_td_lo offset size = m_slice_lo offset size /\ gen_td_hi offset size = m_slice_hi offset size
+                           /\ gen_ec_lo offset size = m_slice_lo offset size /\ gen_ec_hi offset size = m_slice_hi offset size
+                           /\ gen_gd_lo offset (gen_gd_stop offset size) = m_slice_lo offset size
+                           /\ gen_gd_hi offset (gen_gd_stop offset size) = m_slice_hi offset size)
+      /\ gen_td_shape = m_td_shape /\ gen_ec_shape = m_ec_shape /\ gen_gd_shape = m_gd_shape)
+  (* global_offset.py *)
+  /\ ((forall sizes, gen_go_offsets sizes = offsets sizes)
+      /\ (forall s e n, gen_go_start_bad s n = m_go_start_bad s n /\ gen_go_start_negative s = m_go_start_negative s
+                        /\ gen_go_stop_ok e n = m_go_stop_ok e n
+                        /\ (negb (m_go_start_bad s n) && negb (m_go_start_negative s) && m_go_stop_ok e n)
+                           = ((0 <=? s) && (s <? n) && (e <=? n)))
+      /\ (forall x off, gen_go_start x off = m_go_shift x off /\ gen_go_stop x off = m_go_shift x off)
+      /\ gen_go_shape = m_go_shape).
+Proof.
+  repeat match goal with |- _ /\ _ => split end; intros;
+    repeat match goal with |- _ /\ _ => split end;
+    first [ apply b_bg_empty_events | apply b_bg_empty_values | apply b_bg_is_gap | apply b_bg_gap_pos | apply b_bg_gap_value
+          | apply b_bg_gap_shape | apply b_bg_fits | apply b_bg_ends_at_size | apply b_bg_tail_at | apply b_bg_tail_before
+          | apply b_bg_tail_values_before | apply b_bg_tail_shape | apply b_bg_needs_prefix | apply b_bg_prefix
+          | apply b_iv_assert_nonempty | apply use_iv_assert_nonempty | apply b_iv_assert_ordered | apply use_iv_assert_ordered
+          | apply b_iv_has_prefix | apply b_iv_drop_first | apply use_iv_has_prefix | apply use_iv_drop_first
+          | apply b_iv_has_postfix | apply use_iv_has_postfix | apply b_iv_prefix | apply b_iv_postfix | apply b_iv_n_events
+          | apply b_iv_start_slot | apply b_iv_end_slot | apply b_iv_edge_shape | apply b_iv_n_values | apply b_iv_keep
+          | apply b_iv_default_slot | apply b_iv_value_slot | apply use_iv_value_slots; assumption
+          | apply b_iv_array_trailing_default | apply b_iv_array_shape | apply b_iv_drop_count | apply b_iv_return_shape
+          | apply b_ta_diff | apply b_ta_shape | apply b_td | apply b_ec | apply b_gd | apply b_td_shape | apply b_ec_shape
+          | apply b_gd_shape | apply b_go_offsets | apply b_go_start_bad | apply b_go_start_negative | apply b_go_stop_ok
+          | apply use_go_checks | apply b_go_shift | apply b_go_shape
+          | apply use_iv_slots; assumption ].
+Qed.
+Print Assumptions C09_source_tie.
 
 (* non-vacuity: the docstring example of Genome.get_track (chr1 of size 20 with records [0,5)=1, [10,15)=2)
    meets the hypotheses of T2, and the executable model really produces the dense array through
